@@ -7,6 +7,7 @@ static char line[1 << 20], a1[1 << 19], a2[1 << 19];
 static unsigned char b1[1 << 18], b2[1 << 18];
 static long ncmp_calls;
 static int use_default;
+static unsigned ntab;      /* every other table is created with the THREADSAFE option: same answers either way */
 static int (*base_cmp)(const void *, size_t, const void *, size_t);
 /* the byte ordering computed by a comparator that leaves errno set, as one built on strtoul()/strcoll() may (ERANGE): what a
    comparator leaves in errno is not a result of the table operation */
@@ -70,7 +71,7 @@ int main(void) {
             if (!strcmp(op, "cmp")) base_cmp = !strcmp(a1, "rev") ? rev_cmp : !strcmp(a1, "len") ? len_cmp : !strcmp(a1, "ci") ? ci_cmp : !strcmp(a1, "errno") ? errno_cmp : qtreetbl_byte_cmp;
             if (t && !dead) t->free(t);
             if (!strcmp(op, "cmp")) use_default = !strcmp(a1, "default");
-            t = qtreetbl(0); if (!use_default) qtreetbl_set_compare(t, counting_cmp);   /* "default": the table as the constructor leaves it, no comparator installed by the caller */
+            t = qtreetbl((++ntab & 1) ? 0 : QTREETBL_THREADSAFE); if (!use_default) qtreetbl_set_compare(t, counting_cmp);   /* "default": the table as the constructor leaves it, no comparator installed by the caller */
             dead = 0; continue;
         }
         if (!strcmp(op, "dump")) { dump = atoi(a1); continue; }
